@@ -31,7 +31,7 @@ type vC04Scn struct {
 	NC       vFrtNetCfg
 	Key      string
 	OtherKey string
-	RecKind  []string // per peer: valid | stale | invalid | otherkey | miskeyed | empty | none
+	RecKind  []string // per peer: valid | stale | invalid | otherkey | miskeyed | empty | samelocal (byte-identical to the local record) | none
 	Rank     []int
 	Local    string // none | valid | expires (valid when stored, rejected by the validator at search time)
 	LocalRnk int
@@ -74,6 +74,14 @@ func vC04Gen(c *vh.Case) vC04Scn {
 	}
 	sc.Local = []string{"none", "none", "valid", "expires"}[r.Intn(4)]
 	sc.LocalRnk = 1 + r.Intn(7)
+	if sc.Local != "none" {
+		// we usually hold a record because we are one of its holders: other holders serve the very same bytes
+		for i := range sc.RecKind {
+			if r.Intn(3) == 0 {
+				sc.RecKind[i] = "samelocal"
+			}
+		}
+	}
 	sc.Quorum = []int{-1, 0, 1, 2, k}[r.Intn(5)]
 	sc.Op = []string{"SearchValue", "GetValue"}[r.Intn(2)]
 	return sc
@@ -86,7 +94,7 @@ type vC04Emission struct {
 
 func TestVerif_C04_fullrt(t *testing.T) {
 	vh.Run(t, vh.Spec{Prop: "C04", Unit: "fullrt", Quick: 600, Thorough: 20000, CostMs: 8,
-		Rule:    "FullRT over a simulated network (1-30 crawled peers, K in {1,2,3,5,8,20}; 0-50% failing/silent/late) with a generated validator (value bound to its key, total rank order, optional expiry instant); each peer holds for the key: a valid record of rank 1-6 (holders of an even rank share identical bytes), an expired one, a malformed one, one whose value was made for another key, one filed under another key, an empty one, or nothing; local store: nothing, a valid record, or a record that was valid when stored and is rejected by the validator when the search runs (clock advanced past its expiry); quorum option in {absent,0,1,2,K}; SearchValue (every emission time-stamped) or GetValue, un-cancelled, virtual time; non-trivial = at least 2 records were supplied and at least one of them was not acceptable, or at least 2 values were emitted; distinct by (shape, record mix, arrival order of the answers)",
+		Rule:    "FullRT over a simulated network (1-30 crawled peers, K in {1,2,3,5,8,20}; 0-50% failing/silent/late) with a generated validator (value bound to its key, total rank order, optional expiry instant); each peer holds for the key: a valid record of rank 1-6 (holders of an even rank share identical bytes), an expired one, a malformed one, one whose value was made for another key, one filed under another key, an empty one, the very bytes of the local record (also when that one has expired meanwhile), or nothing; local store: nothing, a valid record, or a record that was valid when stored and is rejected by the validator when the search runs (clock advanced past its expiry); quorum option in {absent,0,1,2,K}; SearchValue (every emission time-stamped) or GetValue, un-cancelled, virtual time; non-trivial = at least 2 records were supplied and at least one of them was not acceptable, or at least 2 values were emitted; distinct by (shape, record mix, arrival order of the answers)",
 		Clauses: []string{"yielded-valid", "strictly-improving", "yielded-was-supplied", "final-at-least-best-supplied", "not-found-iff-nothing-valid"}},
 		func(c *vh.Case) {
 			sc := vC04Gen(c)
@@ -118,11 +126,20 @@ func TestVerif_C04_fullrt(t *testing.T) {
 				ctx := context.Background()
 				t0 := time.Now()
 				far := t0.Add(48 * time.Hour)
+				var local []byte
+				switch sc.Local {
+				case "valid":
+					local = vFrtVal(sc.Key, sc.LocalRnk, far, "local")
+				case "expires":
+					local = vFrtVal(sc.Key, sc.LocalRnk, t0.Add(time.Minute), "local-expiring")
+				}
 				for i, id := range n.IDs {
 					sp := n.S.Peer(id)
 					tag := fmt.Sprintf("p%d", i)
 					var rec *recpb.Record
 					switch sc.RecKind[i] {
+					case "samelocal":
+						rec = &recpb.Record{Key: []byte(sc.Key), Value: local}
 					case "valid":
 						exp := time.Time{}
 						if i%2 == 0 {
@@ -150,13 +167,6 @@ func TestVerif_C04_fullrt(t *testing.T) {
 					}
 				}
 				// local record, stored through the instance's own store (validated at that moment)
-				var local []byte
-				switch sc.Local {
-				case "valid":
-					local = vFrtVal(sc.Key, sc.LocalRnk, far, "local")
-				case "expires":
-					local = vFrtVal(sc.Key, sc.LocalRnk, t0.Add(time.Minute), "local-expiring")
-				}
 				if local != nil {
 					if err := n.D.putLocal(ctx, sc.Key, &recpb.Record{Key: []byte(sc.Key), Value: local}); err != nil {
 						c.Fail("harness-putlocal", "putLocal: %v", err)
